@@ -425,12 +425,17 @@ func (n *node) step(op int) bool {
 			if ackedThisTerm {
 				n.failf("acked-entry-truncated", "Truncate(term %d, head %d) accepted although the node had acknowledged later offsets to the leader of that same term", req.Term, req.HeadEntryId.Offset)
 			}
-			for o := req.HeadEntryId.Offset + 1; o <= n.last; o++ {
+			// what an installed snapshot covers is not in the log: a (late) truncation below it cuts nothing there
+			to := req.HeadEntryId.Offset
+			if to < n.first-1 {
+				to = n.first - 1
+			}
+			for o := to + 1; o <= n.last; o++ {
 				delete(n.hist, o)
 				delete(n.ackedFrom, o)
 			}
-			if req.HeadEntryId.Offset < n.last {
-				n.last = req.HeadEntryId.Offset
+			if to < n.last {
+				n.last = to
 			}
 			n.leadTerm = req.Term
 			n.stream = nil
